@@ -564,7 +564,10 @@ template <class Spec> struct TimerModelT : mc::Model, CallbackSink
     void check(const char *sigk)
     {
         if (g_lock_depth != 0)
-            mc::harness_error("system_lock depth %d after %s", g_lock_depth, sigk);
+        { // the library returned with the system lock still held (or released once too often)
+            mc::violation("C16.system_lock.not_balanced", "system lock depth %d after %s", g_lock_depth, sigk);
+            g_lock_depth = 0;
+        }
         int npend = 0;
         int64_t mind = 0;
 #ifndef C16_PUBLIC_ONLY
@@ -949,7 +952,10 @@ struct TwoManagers : mc::Model
     void check(const char *nm)
     {
         if (g_lock_depth != 0)
-            mc::harness_error("system_lock depth %d after %s", g_lock_depth, nm);
+        {
+            mc::violation("C16.system_lock.not_balanced", "system lock depth %d after %s", g_lock_depth, nm);
+            g_lock_depth = 0;
+        }
         for (int t = 0; t < NT; t++)
         {
             bool pl = tim[t]->is_planned();
